@@ -5,6 +5,7 @@ from hypothesis import strategies as st
 from vlib import strat as S, oracles as O
 
 ID = "C09"
+SWITCH_OFF = 6        # every 6th case runs with xfab.CHECKS switched off (results must not depend on it)
 TARGETED = True     # thorough tier uses hypothesis.target on the residual/tolerance ratios
 RULE = ("Hypothesis: g = sin(theta).d with d uniform on the sphere or within 1e-8..1e-1 of +-z (the rotation axis), "
         "2theta in (0.5,150) deg, chi and wedge in [-0.5,0.5] with explicit weight on 0, laue gets g times an arbitrary "
